@@ -1,14 +1,16 @@
 import N0Verif.Proofs.Esc
+import N0Verif.Proofs.Ini
 /-!
 # C17 — delimited list / key=value text decodes to what was encoded
 
 Only property statements live here; helper lemmas are in `Proofs/Esc.lean`, the model in
 `Model/Esc.lean` (it follows the code with fix patches C17-a … C17-d applied).
-The INI part of the property (`parse_ini`, `load_ini`) has no Lean model; it is checked on the
-implementation only (harness evaluator `ini`).
+The INI part of the property (`parse_ini`, `load_ini`, `default_parse_value`, `split_pair`, `isnumber`,
+the lines `save_file` writes for a mapping) is modelled in `Model/Ini.lean` (code with fix patches
+C17-f and C17-g applied); its lemmas are in `Proofs/Ini.lean`.
 -/
 namespace N0.C17
-open N0 N0.Py N0.Esc
+open N0 N0.Py N0.Esc N0.Ini
 
 /-! ## `split_with_escape` -/
 
@@ -228,6 +230,144 @@ theorem C17_nested_serialises_any_flags (c : SCfg) (v : Val) (lvl : Nat) (h : no
     (e : PyErr) (he : ser c lvl v = .error e) : e = .Unsupported :=
   (ser_good c v lvl h e he).1
 
+
+/-! ## INI: `load_ini(save_file(mapping))`, typing of values, `+=`, comments -/
+
+/-- **C17 (typed values).**  `default_parse_value` types a text as `typedSpec` describes its stripped
+form, wherever the model answers (`Exact`: no numeric or white-space character outside ASCII, a
+decimal has at most 15 significant digits, at most 7 of them after the point, and is zero or at
+least `0.0001`). -/
+theorem C17_ini_value_typing (raw : Str) (h : Exact (stripWs raw)) :
+    parseValue raw = .ok (typedSpec (stripWs raw)) :=
+  parseValue_spec raw h
+
+/-- **C17 (which texts are numbers).**  A stripped text `t` comes back
+* as the integer it spells when it is `[+-]digits`;
+* as the decimal it spells (its `repr`: no superfluous zeros) when it is `[+-]digits.digits` with a
+  digit on at least one side of the point;
+* without its quotes when it starts and ends with the same quote (and is at least two characters long);
+* unchanged otherwise — also when `isnumber` lets it through but it is no literal (`.`, `- 5`:
+  fix C17-f). -/
+theorem C17_ini_typing_cases (t : Str) :
+    (isIntLit t = true → typedSpec t = .int (intVal t)) ∧
+    (isIntLit t = false → ∀ ip fp, decParts t = some (ip, fp) →
+        typedSpec t = .flt (decLexeme (isNeg t) ip fp)) ∧
+    (isIntLit t = false → decParts t = none → isQuoted t = true →
+        typedSpec t = .str (t.drop 1).dropLast) ∧
+    (isIntLit t = false → decParts t = none → isQuoted t = false → typedSpec t = .str t) := by
+  refine ⟨?_, ?_, ?_, ?_⟩
+  · intro h; simp [typedSpec, h]
+  · intro h ip fp hd; simp [typedSpec, h, hd]
+  · intro h hd hq; simp [typedSpec, h, hd, textOf, hq]
+  · intro h hd hq; simp [typedSpec, h, hd, textOf, hq]
+
+/-- an integer value of the mapping is written as its digits and comes back as itself; a text value
+comes back as its stripped text, typed -/
+theorem C17_ini_loaded (i : Int) (s : Str) :
+    loaded (.int i) = .int i ∧ loaded (.str s) = typedSpec (stripWs s) :=
+  ⟨loaded_int i, rfl⟩
+
+/-- **C17 (INI round trip, lines).**  For every non-empty equal tag and every mapping whose keys are
+non-empty stripped ASCII names that contain no character of the equal tag, start no comment and do
+not end with `+`, and whose values are scalars on whose printed form the model answers: parsing the
+lines `key eq value` that `save_file` writes gives the dictionary built from the upper-cased keys
+and the typed values (a later entry with the same upper-cased key replaces the value at the place
+of the first, as `dict` does). -/
+theorem C17_ini_roundtrip_scalars (eq : Str) (m : List (Str × Val)) (heq : eq ≠ [])
+    (hm : ∀ kv ∈ m, IniKey eq kv.1 ∧ kv.1.getLast? ≠ some '+' ∧ Exact (stripWs (pyStr kv.2))) :
+    parseIni eq (iniLines eq m) = .ok (dictOfPairs (m.map (fun kv => (upper kv.1, loaded kv.2)))) := by
+  unfold parseIni dictOfPairs
+  rw [parseFrom_iniLines eq heq m hm [], List.foldl_map]
+
+/-- **C17 (INI round trip).**  The statement's case: text keys, values that are integers or texts.
+The mapping loads back with upper-cased keys, integers as integers, and every text typed as
+`C17_ini_typing_cases` says (a text that spells a number loads as that number). -/
+theorem C17_ini_roundtrip (eq : Str) (m : List (Str × Val)) (heq : eq ≠ [])
+    (hk : ∀ kv ∈ m, IniKey eq kv.1 ∧ kv.1.getLast? ≠ some '+') (hv : ∀ kv ∈ m, IniValue kv.2) :
+    parseIni eq (iniLines eq m) = .ok (dictOfPairs (m.map (fun kv => (upper kv.1, loaded kv.2)))) :=
+  C17_ini_roundtrip_scalars eq m heq
+    (fun kv h => ⟨(hk kv h).1, (hk kv h).2, (hv kv h).exact⟩)
+
+/-- the same when the upper-cased keys are pairwise different: entry by entry, in order -/
+theorem C17_ini_roundtrip_unique (eq : Str) (m : List (Str × Val)) (heq : eq ≠ [])
+    (hk : ∀ kv ∈ m, IniKey eq kv.1 ∧ kv.1.getLast? ≠ some '+') (hv : ∀ kv ∈ m, IniValue kv.2)
+    (hu : (m.map (fun kv => upper kv.1)).Nodup) :
+    parseIni eq (iniLines eq m) = .ok (m.map (fun kv => (upper kv.1, loaded kv.2))) := by
+  rw [C17_ini_roundtrip eq m heq hk hv, dictOfPairs_nodup _ (by rw [List.map_map]; exact hu)]
+
+/-- **C17 (INI round trip through the file).**  When moreover no key, no printed value and the equal
+tag contain a line break, reading the text `save_file` writes (`'\n'.join(lines)`) line by line,
+as `load_lines` does, gives those lines back, so `load_ini(save_file(m))` is the same dictionary. -/
+theorem C17_ini_file_roundtrip (eq : Str) (m : List (Str × Val)) (heq : eq ≠ [])
+    (hm : ∀ kv ∈ m, IniKey eq kv.1 ∧ kv.1.getLast? ≠ some '+' ∧ Exact (stripWs (pyStr kv.2)))
+    (hkl : ∀ kv ∈ m, ∀ c ∈ kv.1, c ≠ '\n' ∧ c ≠ '\r') (hel : ∀ c ∈ eq, c ≠ '\n' ∧ c ≠ '\r')
+    (hvl : ∀ kv ∈ m, ∀ c ∈ pyStr kv.2, c ≠ '\n' ∧ c ≠ '\r') :
+    loadIni eq (iniText eq m) = .ok (dictOfPairs (m.map (fun kv => (upper kv.1, loaded kv.2)))) := by
+  unfold loadIni iniText
+  rw [readLines_join _ (iniLines_line_ok eq heq m hkl hel hvl)]
+  exact C17_ini_roundtrip_scalars eq m heq hm
+
+/-- **C17 (`+=` concatenation).**  After any lines that parsed to `acc`, a line `K+=value` — with or
+without blanks between the key and `+` (fix C17-g) — appends the printed typed value to the printed
+value already stored under `K` (the result is a text, also when both were numbers); on a key not
+seen before it stores the value behind the marker character `\x16`. -/
+theorem C17_ini_concat (eq k ws raw : Str) (lines : List Str) (acc : List (Str × Val)) (heq : eq ≠ [])
+    (hk : IniKey eq k) (hws : Blanks eq ws) (hplus : '+' ∉ eq) (hv : Exact (stripWs raw))
+    (hacc : parseIni eq lines = .ok acc) :
+    parseIni eq (lines ++ [k ++ ws ++ ['+'] ++ eq ++ raw]) =
+      .ok (match Val.lookup (upper k) acc with
+           | some old => dictSet (upper k) (.str (pyStr old ++ pyStr (typedSpec (stripWs raw)))) acc
+           | none => dictSet (upper k) (.str (marker :: pyStr (typedSpec (stripWs raw)))) acc) := by
+  unfold parseIni at hacc ⊢
+  rw [parseFrom_append, hacc]
+  simp only [parseFrom]
+  obtain ⟨hig, hpl⟩ := parseLine_key eq (k ++ ws ++ ['+']) raw heq (iniKey_plus eq k ws hk hws hplus) hv
+  unfold stepLine
+  rw [hig, hpl]
+  simp only [Bool.false_eq_true, if_false]
+  have hup : upper (k ++ ws ++ ['+']) = upper k ++ upper ws ++ ['+'] := by
+    simp [upper, toUpperAscii]
+  rw [hup, store_plus _ _ _ _ (upper_key_last k hk.stripped) (upper_blanks ws (fun c hc => (hws c hc).1))]
+  cases Val.lookup (upper k) acc <;> rfl
+
+/-- `K=a` followed by `K+=b` gives the printed `a` followed by the printed `b` -/
+theorem C17_ini_concat_seen (eq k ws a b : Str) (heq : eq ≠ []) (hk : IniKey eq k)
+    (hnp : k.getLast? ≠ some '+') (hws : Blanks eq ws) (hplus : '+' ∉ eq)
+    (ha : Exact (stripWs a)) (hb : Exact (stripWs b)) :
+    parseIni eq [k ++ eq ++ a, k ++ ws ++ ['+'] ++ eq ++ b] =
+      .ok [(upper k, .str (pyStr (typedSpec (stripWs a)) ++ pyStr (typedSpec (stripWs b))))] := by
+  have h1 : parseIni eq [k ++ eq ++ a] = .ok [(upper k, typedSpec (stripWs a))] := by
+    have := C17_ini_roundtrip_scalars eq [(k, .str a)] heq (by
+      intro kv hkv; simp only [List.mem_singleton] at hkv; subst hkv; exact ⟨hk, hnp, ha⟩)
+    simpa [iniLines, pyStr, dictOfPairs, dictSet, loaded] using this
+  have := C17_ini_concat eq k ws b [k ++ eq ++ a] _ heq hk hws hplus hb h1
+  simp only [List.cons_append, List.nil_append] at this
+  rw [this]
+  simp [Val.lookup, dictSet]
+
+/-- `K+=b` on a key not seen before gives the marker followed by the printed `b` -/
+theorem C17_ini_concat_unseen (eq k ws b : Str) (heq : eq ≠ []) (hk : IniKey eq k)
+    (hws : Blanks eq ws) (hplus : '+' ∉ eq) (hb : Exact (stripWs b)) :
+    parseIni eq [k ++ ws ++ ['+'] ++ eq ++ b] =
+      .ok [(upper k, .str (marker :: pyStr (typedSpec (stripWs b))))] := by
+  have := C17_ini_concat eq k ws b [] [] heq hk hws hplus hb rfl
+  simp only [List.nil_append] at this
+  rw [this]
+  simp [Val.lookup, dictSet]
+
+/-- **C17 (comments and blank lines are ignored).**  Lines that are blank after `lstrip()` or start
+(after leading white space) with `#` or `//` can be removed, wherever they stand, without changing
+the result — errors of other lines included. -/
+theorem C17_ini_comments_ignored (eq : Str) (lines : List Str) :
+    parseIni eq (lines.filter (fun l => !isIgnored l)) = parseIni eq lines :=
+  parseFrom_filter eq lines []
+
+/-- the same for one comment line between any two groups of lines -/
+theorem C17_ini_comment_line_ignored (eq : Str) (pre post : List Str) (c : Str) (hc : isIgnored c = true) :
+    parseIni eq (pre ++ c :: post) = parseIni eq (pre ++ post) := by
+  rw [← C17_ini_comments_ignored eq (pre ++ c :: post), ← C17_ini_comments_ignored eq (pre ++ post)]
+  simp [List.filter_append, hc]
+
 /-! ## counter-examples and limits (the model exhibits them; the harness replays them) -/
 
 /-- open finding C17-e: text outside ASCII does not survive `unescape` -/
@@ -269,5 +409,53 @@ example : dictRoundTrip [';'] ['='] (flatVal .n0 [(['k'], "a;b={\\}\"".toList), 
 example : serializeDict [';'] ['='] (.dict .plain [(['k'], .str []), (['j'], .dict .plain [(['a'], .int 1)])])
     = .ok (some "k=;j={a=1}".toList) := by decide
 example : noNone (.dict .plain [(['k'], .none), (['j'], .list .plain [.dict .plain []])]) = true := by decide
+
+/-! ### non-vacuity, INI -/
+
+-- the docstring of `parse_ini`
+example : parseIni ['='] ["// Ini file".toList, "KEY1 =VALUE1".toList, "# KEY2=VALUE2".toList, "KEY3= VALUE3".toList]
+    = .ok [("KEY1".toList, .str "VALUE1".toList), ("KEY3".toList, .str "VALUE3".toList)] := by decide +kernel
+-- typing
+example : parseValue [' ', '1', '2', ' '] = .ok (.int 12) := by decide +kernel
+example : parseValue ['-', '0', '7'] = .ok (.int (-7)) := by decide +kernel
+example : parseValue ['+', '1', '.', '5', '0'] = .ok (.flt ['1', '.', '5']) := by decide +kernel
+example : parseValue ['-', '.', '5'] = .ok (.flt ['-', '0', '.', '5']) := by decide +kernel
+example : parseValue ['5', '.'] = .ok (.flt ['5', '.', '0']) := by decide +kernel
+example : parseValue ['"', ' ', 'q', '"'] = .ok (.str [' ', 'q']) := by decide +kernel
+example : parseValue ['\'', '1', '\''] = .ok (.str ['1']) := by decide +kernel
+example : parseValue ['.'] = .ok (.str ['.']) := by decide +kernel          -- fix C17-f
+example : parseValue ['-', ' ', '5'] = .ok (.str ['-', ' ', '5']) := by decide +kernel
+example : parseValue ['1', 'e', '3'] = .ok (.str ['1', 'e', '3']) := by decide +kernel
+example : parseValue ['é'] = .ok (.str ['é']) := by decide +kernel
+-- outside `Exact` the model does not answer: long decimals, digits outside ASCII
+example : parseValue ['1', '.', '1', '2', '3', '4', '5', '6', '7', '8'] = .error .Unsupported := by decide +kernel
+example : parseValue ['0', '.', '0', '0', '0', '0', '1'] = .error .Unsupported := by decide +kernel
+example : parseValue ['²'] = .error .Unsupported := by decide +kernel
+example : Exact (stripWs [' ', '1', '.', '5', '0']) := exact_of _ (by decide +kernel) (by decide +kernel)
+example : Exact (stripWs ['é', '"']) := exact_of _ (by decide +kernel) (by decide +kernel)
+example : isIntLit ['+', '5'] = true ∧ decParts ['-', '.', '5'] = some ([], ['5'])
+    ∧ isQuoted ['"', '"'] = true ∧ isQuoted ['"'] = false := by decide +kernel
+-- hypotheses of the round trip
+example : IniKey ['='] "Key 1".toList ∧ IniKey ['=', '>'] "x.y/#".toList ∧ IniKey ['='] ['/'] :=
+  ⟨⟨by decide +kernel, by decide +kernel, by decide +kernel, by decide +kernel, by decide +kernel, by decide +kernel⟩,
+   ⟨by decide +kernel, by decide +kernel, by decide +kernel, by decide +kernel, by decide +kernel, by decide +kernel⟩,
+   ⟨by decide +kernel, by decide +kernel, by decide +kernel, by decide +kernel, by decide +kernel, by decide +kernel⟩⟩
+example : IniValue (.int (-3)) ∧ IniValue (.str " 1.50".toList) ∧ IniValue (.str "'x' ".toList) :=
+  ⟨.int _, .text _ (exact_of _ (by decide +kernel) (by decide +kernel)),
+   .text _ (exact_of _ (by decide +kernel) (by decide +kernel))⟩
+example : parseIni ['='] (iniLines ['='] [("Key".toList, .int (-3)), ("b_1".toList, .str " 1.50".toList),
+      ("n".toList, .str "'x' ".toList), ("key".toList, .str "12".toList)])
+    = .ok [("KEY".toList, .int 12), ("B_1".toList, .flt "1.5".toList), ("N".toList, .str ['x'])] := by decide +kernel
+example : loadIni ['='] (iniText ['='] [("a".toList, .int 1), ("b".toList, .str "x=y".toList)])
+    = .ok [("A".toList, .int 1), ("B".toList, .str "x=y".toList)] := by decide +kernel
+example : readLines "a=1\r\n\rb=2\n\nc".toList = ["a=1".toList, [], "b=2".toList, [], ['c']] := by decide +kernel
+-- `+=`
+example : Blanks ['='] [' ', '\t'] ∧ Blanks ['='] [] := by constructor <;> (unfold Blanks; decide +kernel)
+example : parseIni ['='] ["k=a".toList, "k+=b".toList, "K +=c".toList] = .ok [(['K'], .str "abc".toList)] := by decide +kernel
+example : parseIni ['='] ["k=1".toList, "k+=2.50".toList] = .ok [(['K'], .str "12.5".toList)] := by decide +kernel
+example : parseIni ['='] ["k+= b".toList] = .ok [(['K'], .str [marker, 'b'])] := by decide +kernel
+-- comments and blank lines
+example : isIgnored "  # k=v".toList = true ∧ isIgnored "\t//k=v".toList = true ∧ isIgnored " \t".toList = true
+    ∧ isIgnored "/ k=v".toList = false ∧ isIgnored "k#=v".toList = false := by decide +kernel
 
 end N0.C17
